@@ -587,8 +587,26 @@ def twin_listeners(ctx, seed, replay):
     if wild:
         ctx.count("twin_listener_scenarios_with_the_instance_left_open")
     insts = [S.ServiceInstance(svc, listener(n), prot.announcer, tm) for n in (1, 2)]
+    # every other scenario a further service of the same application is announced in front of them whose listener withdraws it
+    # as soon as its (only) client is gone - from inside the report (D12): what the other listeners are told does not depend
+    # on it
+    withdrawing = zlib.crc32(str(seed).encode() + b"w") % 2 == 0
+    wlog = []
+
+    class Withdrawing(S.ServerServiceListener):
+        def client_subscribed(self, sub, source):
+            wlog.append("subscribed")
+
+        def client_unsubscribed(self, sub, source):
+            wlog.append("unsubscribed")
+            if winst in prot.announcer.announcing_services:
+                prot.announcer.stop_announce_service(winst)
+
+    winst = S.ServiceInstance(C.Service(0x3004, 1, 1, 0, eventgroups=frozenset({1})), Withdrawing(), prot.announcer, tm)
 
     def setup():
+        if withdrawing:
+            prot.announcer.announce_service(winst)
         for i in insts:
             prot.announcer.announce_service(i)
         prot.announcer.start()
@@ -599,6 +617,12 @@ def twin_listeners(ctx, seed, replay):
     live = {}  # (addr, eg) -> deadline
     t = 0.5
     script = []
+    if withdrawing:
+        # its client: the first subscriber, once, for good
+        fl, sid = sess[subs[0]].next()
+        h.at(0.375, prot.datagram_received, net.sd_bytes([net.subscribe(0x3004, 1, 1, 1, FOREVER, o1=[refwire.ep4("10.0.6.1", 4000)])], sid, reboot=fl),
+             subs[0], False)
+        ctx.count("twin_listener_scenarios_next_to_a_service_withdrawn_from_inside_a_report")
     for k in range(rng.randrange(4, 22)):
         t += rng.choice((2.0 ** -6, 0.125, 0.5, 0.75, 1.5)) + 2.0 ** -12
         a = rng.choice(subs)
